@@ -199,7 +199,15 @@ class SparseOracle:
             for g in user_groups:
                 flags = [int(v) in set(nz.tolist()) for v in g]
                 if any(flags) and not all(flags):
-                    res.violate("C06:group_split", {"group": list(g), "selected": nz.tolist(), "where": where})
+                    # F11 (known finding): a member whose training column is identically zero receives a zero gradient,
+                    # so once the proximal step has zeroed the group and a later step revives it, that member's row stays
+                    # exactly zero.  Keyed on exactly that state; any other split of a group is reported.
+                    dead = [int(v) for v, f in zip(g, flags) if not f]
+                    Xc = self.X
+                    cls = "C06:group_split"
+                    if Xc is not None and all(v < Xc.shape[1] and not np.any(Xc[:, v]) for v in dead):
+                        cls = "C06:group_split:unselected_members_have_all_zero_columns"
+                    res.violate(cls, {"group": list(g), "selected": nz.tolist(), "where": where})
                     break
         if 0 < len(nz) < d:
             res.nontrivial = True
